@@ -1,1 +1,6 @@
 //! E4: reference models written from the RFCs / property statements.
+
+pub mod c20_core;
+pub mod rtpwire;
+pub mod srtp;
+pub mod stunwire;
